@@ -286,9 +286,12 @@ CLAIMED = {
         'for billing_project_users_only only after _user_can_access(app db, int(path batch_id), username) said yes and with that id; every other exit raises 401/redirect (no user), 403 (inactive), 404 (no access) with the handler uncalled; no call outside the modelled ones. '
         '(2) The embedded SQL is parsed and given LEFT/INNER JOIN, ON/WHERE and NULL semantics by sqlvc; z3 decides that _user_can_access is true exactly for a member of the batch\'s billing project, and that the gating query of _create_jobs, _create_job_groups.insert, _create_batch_update.update, commit_update (close_batch: query cannot execute) '
         'implies a row of batches with the request\'s batch id, user = caller and NOT deleted, that 404 is raised without it and that every write statement / writing helper is reached only under it; route handlers pass int(path batch_id) and the authenticated user to the helpers; _create_batch inserts only for the caller into a project they belong to. '
+        '(2c) get_billing_projects, get_billing_project and ui_get_billing_limits ask the billing-project listing helper without a user name only for a developer or for the user named exactly auth (`x in \'auth\'` is modelled as the substring test it is), otherwise with the caller\'s own name. '
+        '(2d) Reads of batch-scoped handlers: _get_job_record answers only the job (batch_id, job_id) it was asked for; get_job_container_log with the real _get_job_container_log executed in place asks the worker / the log store only for the checked batch, the job of the request and a container job_tasks_from_spec answers (only input / main / output); '
+        '_query_batch_jobs_for_billing pins jobs.batch_id to the checked id on every path (real f-string, real condition list), its follow-up statements as well; every caller chain of these helpers starts at the never-rebound batch_id parameter of a batch-scoped route handler. '
         '(3) Every @routes.<verb>(path) handler and every registration in run() is classified by a data-driven policy derived from the property text (exempt / batch-scoped / owner-only / new-batch / billing-administration / other); exactly one class each, protection of the class present with only transparent decorators above it, closed-world checks on the table object, the authenticator and the wrapper composition.',
-        note=COMMON_NOTE + 'Assumed: what _fetch_userdata answers (auth service) is an oracle returning None or a UserData mapping; aiohttp dispatch, functools.wraps and the middlewares are transparent; strings are integer codes compared for equality (collations not modelled); reads of one request see one database state; handler/helper composition is by call name. '
-        'Not decided: listing endpoints\' dynamically built queries, job-level ids inside batch-scoped handlers, the driver\'s routes, TrustedSingleTenantAuthenticator. '
+        note=COMMON_NOTE + 'Assumed: user names are text and never None; the listing helpers of batch/utils.py restrict to `user` exactly when a non-empty name is passed; the log sinks build their URL / path from exactly the ids and container name they are handed; a top-level WHERE conjunct `col = %s` restricts every answered row. Assumed: what _fetch_userdata answers (auth service) is an oracle returning None or a UserData mapping; aiohttp dispatch, functools.wraps and the middlewares are transparent; strings are integer codes compared for equality (collations not modelled); reads of one request see one database state; handler/helper composition is by call name. '
+        'Not decided: listing endpoints\' dynamically built queries beyond their scope condition, the remaining queries of batch-scoped handlers (job groups, attempts, resource usage, cancel / delete procedures), the driver\'s routes, TrustedSingleTenantAuthenticator. '
         'One fix: commit (update-token lookup of _create_batch_update had no owner conjunct: a non-owner replaying a token could commit the owner\'s update; replayed on the real handler) and one known finding (GET /metrics is served without authentication, registered outside the route table).',
         technique='contracts on the real wrappers/handlers (pyvc symbolic execution, handler and helpers as oracles with call-site obligations), embedded SQL -> sqlvc predicates decided by z3, exhaustive AST obligations over the route table; native replays with stub requests and sqlite',
         engine='pyvc+sqlvc',
